@@ -68,4 +68,113 @@ CHECKS["C18"] = {
     "explanation": "closed-state theorems + exhaustive short call sequences",
 }
 
+FLSPEC = "Flate.Spec is my reading of RFC 1951, validated on every run against Go's compress/flate, zlib and this repository's flate.Reader (family fl: verdict, output, consumed bytes)"
+BZSPEC = "Bzip2.Spec is my reading of the bzip2 format, validated on every run against libbzip2 (restarted per stream), Go's compress/bzip2 and this repository's Reader (family bz)"
+
+CHECKS["C01"] = {
+    "families": ["fl", "win"],
+    "trusted_base": [FLSPEC, "Flate.Impl is a hand-written Go-shaped model of flate/reader.go, prefix tables and dict_decoder.go, tied to /repo by per-call correspondence (lines flr, win)"],
+    "assumptions": ["the source delivers the bytes it has (failing sources: C09); inputs of the flr correspondence are capped at 6000 bytes, the specification is compared on all"],
+    "level_text": "full on the model: Lean theorem C01_refines_spec - for every byte string and every schedule of Read buffer lengths, the Go-shaped model of flate.Reader (tables built by GeneratePrefixes + Decoder.Init, ring-buffer window with lazy growth, resumable steps, toRead/err latch) delivers exactly the output of the RFC 1951 specification, also before an error, ends with io.EOF exactly when the specification accepts (C01_success_iff) and has then consumed exactly the stream; C01_cut, C01_trailing_ignored, C01_output_bound on the specification.",
+    "level_note": "Trusted: Lean kernel (propext, Classical.choice, Quot.sound); the RFC reading is mine and is validated against three independent inflaters on ~70k inputs per quick run; the model is tied to /repo by correspondence (sampling). Defect found by this machinery and repaired: D8 (code 16 after a zero run).",
+    "explanation": "refinement theorem Impl -> RFC 1951 specification + 4-way differential",
+}
+CHECKS["C02"] = {
+    "families": ["brd", "win"],
+    "trusted_base": ["libbrotlidec (cgo, in-tree internal/cgo/brotli) is the reference; there is NO Lean model of the Brotli format: the format-level clause is decided by the differential sweep only", "Window/Prefix/BitIO models as in C01/C20"],
+    "assumptions": ["Brotli format logic (block switching, context maps, static dictionary transforms) is not modelled"],
+    "level_text": "partial: proved only for the components brotli.Reader shares with the modelled code - its LZ77 window (C02_window: dictDecoder with lazy growth = append-only LZ77 output, incl. the ring wrap-around), its bit reader over every source shape and its prefix-table decoder (C20). The format itself (RFC 7932) has no Lean model; agreement with libbrotlidec - verdict, output, bytes before an error - is a differential sweep over every <=1-byte string, a stride of the 2-byte strings, libbrotlienc output at qualities 0-11 (random, low-entropy, dictionary-heavy text, testdata) and their mutations.",
+    "level_note": "Trusted: libbrotlidec; Lean kernel for the component theorems. This is the weakest claim in the manifest: a change confined to Brotli format logic is caught only if the sweep hits it.",
+    "explanation": "component theorems + libbrotlidec differential",
+}
+CHECKS["C03"] = {
+    "families": ["bz", "bzst"],
+    "trusted_base": [BZSPEC, "no Go-shaped model of bzip2.Reader's control flow: its stages are modelled one by one (bzst), the whole reader is compared with the specification (bz)"],
+    "assumptions": ["SA-IS / inverse BWT pointer chasing are modelled at the level of their results"],
+    "level_text": "partial: Lean theorems on the format specification and the stage models - C03_concatenated (complete streams back to back decode to the concatenation), C03_prefix_agrees (any cut of an accepted input: only a prefix, unexpected EOF or success exactly at a stream end, never corrupt/deprecated), C03_bwt_inverse, C03_mtf_roundtrip, C03_rle1_resumable (any Read schedule), C03_crc. bzip2.Reader = specification is a correspondence (Go reader vs Lean specification vs libbzip2 on synthesised streams incl. 20-bit codes, concatenations, deprecated headers and mutations), not a refinement proof.",
+    "level_note": "Trusted: Lean kernel; libbzip2 via cgo is the reference of the sweep. Defect found and repaired: D4 (Reset kept the half-read block).",
+    "explanation": "specification theorems + 3-way differential",
+}
+CHECKS["C04"] = {
+    "families": ["bzw", "bzst"],
+    "trusted_base": [BZSPEC, "Bzip2.Writer.encodeStream is a hand-written model of bzip2/writer.go (RLE1 block splitting, tree count, selectors, GenerateLengths limited to 20 bits, delta-coded lengths, CRCs); the forward BWT is the rotation-sort specification, the Go SA-IS is tied to it by the stage correspondence"],
+    "assumptions": ["split-independence of the model is by construction (it takes the concatenation); that the Go Writer emits the model's bytes for every split is the bzw correspondence"],
+    "level_text": "full on the model: C04_writer_total (no panic branch for any input and level), C04_lossless (the format specification decodes the emitted stream to exactly the input - proved for every input, every level, incl. inputs whose optimal code exceeds 20 bits), C04_codes_fit_20_bits, C04_rle1, C04_bwt_shape, C04_levels. Interoperability with libbzip2 and compress/bzip2 and byte-exact agreement of the Go Writer with the model for random splits: correspondence + oracle (family bzw).",
+    "level_note": "Trusted: Lean kernel; libbzip2 and compress/bzip2 as independent decoders in the oracle. Defect found and repaired: D9 (Close forgot an earlier failure).",
+    "explanation": "round-trip theorem for the writer model + byte-exact correspondence + 3 decoders",
+}
+CHECKS["C08"] = {
+    "families": ["xo", "brd", "bz", "life"],
+    "also_report": [],
+    "trusted_base": ["no-panic is decided by running the real code under recover with a watchdog: the models have no slice bounds or nil maps to violate", "allocation ghosts (window allocs, chunk appends) are model fields validated by correspondence (win, xo)"],
+    "assumptions": ["work bound per byte: proved as loop-fuel bounds on the models (flate: linear fuel; xflate.Read: one iteration per segment), not measured on the implementation"],
+    "level_text": "partial: Lean theorems C08_window_lazy_growth (every window buffer <= max 4096 (min size (4 x produced)) - flate and brotli), C08_index_alloc_bounded (chunk entries appended by xflate.Reader.Reset <= input length; D3 was the declared count), C08_flate_output_bound (<= 258 bytes per input bit), C08_flate_terminates and C08_xflate_read_returns (model loops end within a fuel linear in the input / number of segments; D2 was an endless loop). Panic- and hang-freedom of bzip2.Reader and brotli.Reader and of everything the models do not contain: sweep of mutated/synthesised inputs under recover with a watchdog.",
+    "level_note": "Trusted: Lean kernel; the sweep is sampling. Memory of the real process is not measured (no child-process RSS oracle was built).",
+    "explanation": "allocation and termination theorems on the models + recover/watchdog sweep",
+}
+CHECKS["C09"] = {
+    "families": ["fl", "bz", "life", "xo"],
+    "trusted_base": [FLSPEC, BZSPEC, "error-site facts are regenerated from /repo by the go/ast extractor and pinned by theorem (Compress.Facts.Sites)"],
+    "assumptions": ["I/O errors passed through verbatim: sweep with failing sources (families bio, life), no theorem", "Brotli truncation: sweep only"],
+    "level_text": "partial: C09_error_sites_classified (every error site of /repo on a decoding path raises Corrupted/Deprecated or is a listed exception - regenerated on every run), C09_deflate_cut_is_ueof and C09_bzip2_cut_is_ueof (a valid stream cut at any byte: exactly unexpected EOF / never corrupt, on the specifications), C09_flate_classes (flate.Reader model ends with the class matching the specification), C09_xflate_sticky / C09_xflate_close / C09_xflate_seek_keeps / C09_flate_sticky (latched error: no data, same error, Close reports it). Sticky + Close for bzip2/brotli/meta Readers and verbatim I/O errors: sweep.",
+    "level_note": "Trusted: Lean kernel; extractor (go/ast) for the facts; sweep = sampling.",
+    "explanation": "regenerated error-site facts + cut theorems + sticky lemmas + fault sweep",
+}
+CHECKS["C10"] = {
+    "families": ["bio", "fl", "brd"],
+    "trusted_base": ["bit reader model (both source modes, adversarial Buffered()) tied to /repo by scripted correspondence (family bio)"],
+    "assumptions": ["Buffered() answers are stable between Peek/Discard/Read (a source that shrinks them is outside the BufferedReader contract)"],
+    "level_text": "partial: C10_flate_read_sizes (any two Read schedules, zeros included: same bytes, same final error), C10_source_shape (ReadByte-only vs Peek/Discard with any Buffered() adversary: same fields = the plain bit list), C10_bzip2_read_sizes (resumable RLE1 for every schedule), C10_xflate_any_fragmentation (C07 for every inflater behaviour). Whole-reader independence for bzip2 and brotli: sweep over 9 source kinds and Read-size schedules.",
+    "level_note": "Trusted: Lean kernel; correspondence of the bit reader scripts; sweep = sampling.",
+    "explanation": "schedule-independence theorems + source-shape sweep",
+}
+CHECKS["C11"] = {
+    "families": ["bio", "fl", "brd", "meta"],
+    "trusted_base": ["bit reader and decode-table models tied to /repo by correspondence (bio, pfx)"],
+    "assumptions": ["'flate.Reader delivers everything written before a flush without asking for more input' is decided by the fl sweep (flush-point oracle), not proved"],
+    "level_text": "partial: C11_counters_exact and C11_exact_consumption (bit reader, both source kinds, any Buffered() adversary: BitsRead exact, byte offset = bytes taken, after ReadPads+Flush exactly the bytes holding the stream are gone), C11_readSymbol_no_overread (the table-lookup length suggestion never exceeds the true code length for canonical complete codes - so a ReadByte-only source is never over-read), C11_flate_input_offset (flate model: consumed = stream length at io.EOF for every schedule). OutputOffset/InputOffset of the real Readers and the trailer-left-unread check: sweep (fl, brd, meta).",
+    "level_note": "Trusted: Lean kernel; sweep = sampling.",
+    "explanation": "exact-consumption theorems for the shared bit reader + trailer sweep",
+}
+CHECKS["C12"] = {
+    "families": ["xw", "life", "bzw"],
+    "trusted_base": [ZW.replace("between Reset and Flush", "between Reset and any later Flush (every flush-delimited prefix of a chunk)"), FLSPEC, BZSPEC],
+    "assumptions": ["compressor contract per flush-delimited prefix of a chunk (non-vacuous: witness with a back-reference across a sync flush)"],
+    "level_text": "partial (one clause is false of the code: D6, known finding): C12_flush_durable (after any Flush that returned nil the specification decodes the sink bytes to exactly everything accepted before it, then runs out of input), C12_xflate_cut_deflate (closed XFLATE output cut at any byte: prefix then unexpected EOF), C12_bzip2_cut (same for bzip2.Writer output). 'xflate.NewReader on a cut stream fails or serves exactly the original': sweep over every/sampled cut position; fails in the D6 shape only.",
+    "level_note": "Trusted: Lean kernel; compress/flate.Writer is a contract. KNOWN-FINDING D6 is matched by its shape (wrong tail = the end-block bytes, then an error).",
+    "explanation": "durability and cut theorems + cut sweep",
+}
+CHECKS["C14"] = {
+    "families": ["life", "win", "cc"],
+    "trusted_base": ["Reset field lists are regenerated from /repo (go/ast) and pinned by theorem", "behavioural equality after Reset is a sweep (dirty history, Reset, compare with a fresh instance), not a theorem"],
+    "assumptions": [],
+    "level_text": "partial: C14_window_fresh (the reused LZ77 window - the one carried buffer whose contents could matter - does not influence the next stream, for every previous capacity), C14_bitreader_fresh, C14_bzip2_reader_reset + Facts.reset_carried (every Reset of /repo carries allocation-bearing and configuration fields only; regenerated on every run - D4 was bzip2.Reader carrying its half-read block). Whole-instance indistinguishability for the 8 types: sweep (read to end / abandoned / corrupt / closed / failed sink, then Reset, against a fresh instance).",
+    "level_note": "Trusted: Lean kernel; extractor; sweep = sampling.",
+    "explanation": "regenerated Reset facts + window freshness theorem + dirty-history sweep",
+}
+CHECKS["C15"] = {
+    "families": ["xo"],
+    "trusted_base": [FLSPEC, "Open and Reader models run over the specification as the inflater (kind xa) and are compared with the real NewReader + ReadAll on every accepted stream of <= 700 bytes"],
+    "assumptions": ["hypothesis NoFinalBlock on non-footer segments (see level)"],
+    "level_text": "partial - the full property is FALSE of the code (D10, known finding, kernel-checked 53-byte witness C15_violated_D10): C15_accepted_is_deflate proves it for every accepted byte string none of whose non-footer segments holds a final-block header (NoFinalBlock, stated on the specification alone), C15_writer_streams_qualify shows every Writer-produced stream meets that hypothesis, C15_index_agrees / C15_index_agrees_read, C15_history_independent. The sweep crafts chunks from DEFLATE fragments the Writer never emits and tampers with indexes and footers; a violation whose offending chunk holds a final-block header is the known finding, anything else is reported.",
+    "level_note": "Trusted: Lean kernel; compress/flate in the sweep. D10 is not repaired: telling the appended end block from a final block inside a chunk needs block boundaries compress/flate does not expose.",
+    "explanation": "accepted => DEFLATE theorem under NoFinalBlock + crafted-stream sweep",
+}
+CHECKS["C17"] = {
+    "families": ["xc", "xr"],
+    "trusted_base": [ZR, INT64, "fetch accounting: bytes reach the inflater only through io.LimitedReader{N: csize} over the segment Seek positioned on (source fact, observed by the logging ReadSeeker of family xc)"],
+    "assumptions": ["bufio read-ahead inside the wrapper is bounded by the LimitedReader"],
+    "level_text": "full on the model: C17_seek_opens_owner (a successful Seek(p) opens at most one segment and it is the chunk holding p, half-open - wherever the cursor was), C17_read_opens_between (a Read delivering k bytes opens only later segments, each once, each starting in [p, p+k]), C17_access_cost, C17_tail_costs_nothing, C17_open_cost (open reads the footer window and exactly the index blocks), with the cost-instrumented functions proved to project onto the validated Reader model. D7 (closed shortcut test: one extra chunk) is repaired in /repo and kept as a machine-checked counter-example on the pre-fix model.",
+    "level_note": "Trusted: Lean kernel; correspondence of the opened-segment lists per operation against the absolute seeks the real Reader issues (family xc), plus the per-segment fetch bound and ownership oracle on the real code.",
+    "explanation": "opened-segment theorems + seek-log correspondence",
+}
+CHECKS["C19"] = {
+    "families": ["cc"],
+    "trusted_base": ["global-variable facts regenerated from /repo (go/ast): written only in init functions; addresses taken only at read-only table uses", "Go race detector (binary built with -race) for what a sequential model cannot exhibit"],
+    "assumptions": ["a method touches only its receiver's state and reads package state: follows from the regenerated facts for direct assignments; aliasing through pointers handed out by the instances themselves is covered by the race-detector sweep only"],
+    "level_text": "partial: interleaving_is_solo / others_irrelevant (for steps that read a shared environment and read/write only their own instance, every interleaving gives each instance exactly the results and final state of running alone - any number of instances, any schedule), C19_no_shared_write (the premise, regenerated from /repo on every run). Absence of unsynchronised access in the real code: 16-32 goroutines x independent instances of all Reader/Writer types under the race detector, results compared with solo runs.",
+    "level_note": "Trusted: Lean kernel; extractor; race detector = sampling of schedules.",
+    "explanation": "frame theorem + regenerated no-shared-write facts + race-detector sweep",
+}
+
 NOT_APPLICABLE = {}
